@@ -437,13 +437,14 @@ func (f *file) ReadDir(n int) ([]hackpadfs.DirEntry, error) {
 	if err != nil {
 		return nil, &hackpadfs.PathError{Op: "readdir", Path: f.path, Err: err}
 	}
-	start, end := f.offset, f.offset+int64(n)
+	start := f.offset
 	if start > int64(len(dirNames)) {
 		start = int64(len(dirNames))
 	}
-	if n <= 0 || end > int64(len(dirNames)) {
-		// a non-positive count returns all remaining entries
-		end = int64(len(dirNames))
+	end := int64(len(dirNames))
+	if n > 0 && int64(n) < end-start {
+		// a non-positive count, or one larger than what is left, returns all remaining entries
+		end = start + int64(n)
 	}
 	if n > 0 && start == end {
 		// like os.File, the end of the directory is reported as io.EOF
